@@ -7,21 +7,32 @@ operation; hence it holds in every reachable world, for every configuration `c` 
 namespace RustCc
 open World
 
-/-- **One micro-step of the machine preserves the weak invariant.** -/
-theorem step_weakOk (c : Cfg) (w : World) (ha : AllInv c w) (h : WeakOk w) : WeakOk (step c w) := by
-  refine WeakH.toOk (E := []) ?_ (step_wcOk c w h.wcs)
+variable {ex : Bool}
+
+/-- What makes a micro-step lose no `Weak` (see `Frame.wclean`). -/
+def World.wclean (w : World) : Prop :=
+  w.mode = .running → ∀ f rest, w.stack = f :: rest → f.wclean w
+
+/-- One micro-step with the exactness flag: exact before, no `Weak` lost in the step ⇒ exact after. -/
+theorem step_weakH (c : Cfg) (w : World) (ha : AllInv c w) (h : WeakH ex w []) (hwc : wcOk w.stack)
+    (hcl : ex = true → w.wclean) : WeakH ex (step c w) [] := by
   unfold step
   split
-  · exact h.toH
-  · exact h.toH
+  · exact h
+  · exact h
   · split
-    · wneutral h.toH
+    · wneutral h
     · rename_i f rest hs
       exact unwindFrame_weakH c w f rest h hs
-  · split
-    · exact h.toH
+  · rename_i hm
+    split
+    · exact h
     · rename_i f rest hs
-      exact stepFrame_weakH c w f rest ha h hs
+      exact stepFrame_weakH c w f rest ha h hwc hs (fun e => hcl e hm f rest hs)
+
+/-- **One micro-step of the machine preserves the weak invariant.** -/
+theorem step_weakOk (c : Cfg) (w : World) (ha : AllInv c w) (h : WeakOk w) : WeakOk (step c w) :=
+  WeakH.toOk (E := []) (step_weakH c w ha h.toH h.wcs (fun e => nomatch e)) (step_wcOk c w h.wcs)
 
 theorem init_weakOk (c : Cfg) (nH nW nK : Nat) : WeakOk (World.init c nH nW nK) := by
   have hW : ∀ n, wIds (List.replicate n none) = [] := by
@@ -51,7 +62,7 @@ theorem reachable_weakOk (c : Cfg) (nH nW nK : Nat) (w : World) (h : Reachable c
   | init => exact init_weakOk c nH nW nK
   | step w hr ih => exact step_weakOk c w (reachable_all c nH nW nK w hr) ih
   | top w op _ hs _ ih =>
-    have h1 : WeakH { w with stack := [.script [op] none none true, .catchTop], events := [], ret := .ok } [] := by
+    have h1 : WeakH false { w with stack := [.script [op] none none true, .catchTop], events := [], ret := .ok } [] := by
       refine WeakH.neutral ih.toH rfl rfl rfl rfl rfl ?_ (fun _ => rfl) (fun _ => rfl) (fun _ => rfl)
       rw [hs]; rfl
     exact h1.toOk (by simp [wcOk_cons, Frame.wcId, wcOk])
